@@ -130,10 +130,9 @@ func Append(ctx context.Context, basen ipld.Node, db *h.DagBuilderHelper) (out i
 		return nil, err
 	}
 
-	// after appendFillLastChild, our depth is now increased by one
-	if !db.Done() {
-		depth++
-	}
+	// after appendFillLastChild the child count tells in which layer the next
+	// sub-tree goes (a layer it started is complete, or the data is used up)
+	depth, _ = trickleDepthInfo(fsn, db.Maxlinks())
 
 	// Now, continue filling out tree like normal
 	for i := depth; !db.Done(); i++ {
@@ -227,10 +226,9 @@ func appendRec(ctx context.Context, fsn *h.FSNodeOverDag, db *h.DagBuilderHelper
 		return nil, 0, err
 	}
 
-	// after appendFillLastChild, our depth is now increased by one
-	if !db.Done() {
-		depth++
-	}
+	// after appendFillLastChild the child count tells in which layer the next
+	// sub-tree goes (a layer it started is complete, or the data is used up)
+	depth, _ = trickleDepthInfo(fsn, db.Maxlinks())
 
 	// Now, continue filling out tree like normal
 	for i := depth; i < maxDepth && !db.Done(); i++ {
